@@ -16,6 +16,7 @@ pub const VERIF_DIR: &str = "/verif";
 pub const DEFAULT_SEED: u64 = 20260921;
 const WATCHDOG_S: u64 = 300;
 const MINIMISE_BUDGET_S: u64 = 30;
+const MAX_TRACKED_FPS: usize = 150_000;
 
 #[derive(Clone, Debug)]
 pub struct Opts {
@@ -188,7 +189,35 @@ fn run_dir() -> String {
     d
 }
 
+unsafe extern "C" {
+    fn mallopt(param: i32, value: i32) -> i32;
+    fn setrlimit(resource: i32, rlim: *const [u64; 2]) -> i32;
+}
+
+/// Process-level settings for every process that executes cases:
+/// * keep freed heap mapped (no brk trimming, high mmap threshold): the
+///   allocator's 1 MiB reserve per Allocator would otherwise be returned to
+///   and re-faulted from the kernel on every run, which is very slow when 16
+///   workers do it at once in this VM;
+/// * cap the address space, so that an allocation driven by a declared length
+///   (the "over-allocating" fault of C16/C20) fails fast and is reported as a
+///   process death instead of exhausting the machine.
+pub fn tune_process() {
+    const M_TRIM_THRESHOLD: i32 = -1;
+    const M_TOP_PAD: i32 = -2;
+    const M_MMAP_THRESHOLD: i32 = -3;
+    const RLIMIT_AS: i32 = 9;
+    unsafe {
+        mallopt(M_MMAP_THRESHOLD, 32 << 20);
+        mallopt(M_TRIM_THRESHOLD, 1 << 30);
+        mallopt(M_TOP_PAD, 16 << 20);
+        let lim: [u64; 2] = [12 << 30, 12 << 30];
+        setrlimit(RLIMIT_AS, &lim);
+    }
+}
+
 pub fn worker<S: Scenario>(o: &Opts) {
+    tune_process();
     install_panic_hook();
     let mut ctx = Ctx::load(&format!("{VERIF_DIR}/known_findings.txt"));
     ctx.tier_thorough = o.tier == Tier::Thorough;
@@ -238,7 +267,7 @@ pub fn worker<S: Scenario>(o: &Opts) {
         sum.runs_done += 1;
         sum.evals += outc.evals.max(1);
         for (k, v) in &outc.counters {
-            *sum.counters.entry(k.clone()).or_insert(0) += v;
+            { let e = sum.counters.entry(k.clone()).or_insert(0); *e = e.saturating_add(*v); }
         }
         for k in &outc.known {
             *sum.known.entry(k.clone()).or_insert(0) += 1;
@@ -246,7 +275,11 @@ pub fn worker<S: Scenario>(o: &Opts) {
         digest = digest.wrapping_add({ let mut s = outc.fingerprint ^ run.wrapping_mul(0x9E37_79B9_7F4A_7C15); crate::rng::splitmix64(&mut s) });
         if outc.nontrivial {
             sum.nontrivial_runs += 1;
-            fps.insert(outc.fingerprint);
+            // exact distinct count over the first MAX_TRACKED non-trivial runs of this worker
+            // (a lower bound for the batch; bounded so that huge batches stay cheap)
+            if fps.len() < MAX_TRACKED_FPS {
+                fps.insert(outc.fingerprint);
+            }
             if sum.samples.len() < 2 {
                 sum.samples.push(json!({"run": run, "run_seed": rs, "case": S::sample(&case)}));
             }
@@ -275,6 +308,7 @@ pub fn worker<S: Scenario>(o: &Opts) {
 // single-shot commands used for crash confirmation and replay
 
 pub fn cmd_gen<S: Scenario>(o: &Opts) {
+    tune_process();
     install_panic_hook();
     match generate_caught::<S>(o.seed, o.tier, o.run) {
         Ok(c) => println!("{}", serde_json::to_string(&c).unwrap()),
@@ -285,6 +319,7 @@ pub fn cmd_gen<S: Scenario>(o: &Opts) {
 }
 
 pub fn cmd_exec<S: Scenario>(o: &Opts) {
+    tune_process();
     install_panic_hook();
     let path = o.file.clone().unwrap_or_else(|| harness_error("exec needs a case file"));
     let txt = std::fs::read_to_string(&path).unwrap_or_else(|_| harness_error("cannot read case file"));
@@ -542,7 +577,7 @@ pub fn parent<S: Scenario>(o: &Opts) -> i32 {
                         merged.evals += ws.evals;
                         merged.nontrivial_runs += ws.nontrivial_runs;
                         for (k, v) in ws.counters {
-                            *merged.counters.entry(k).or_insert(0) += v;
+                            { let e = merged.counters.entry(k).or_insert(0); *e = e.saturating_add(v); }
                         }
                         for (k, v) in ws.known {
                             *merged.known.entry(k).or_insert(0) += v;
@@ -719,7 +754,7 @@ pub fn parent<S: Scenario>(o: &Opts) -> i32 {
             "simulated_time": sim_time,
             "faults_fired": faults,
             "probes": probes,
-            "distinct_measure": "distinct 64-bit fingerprints of the per-run event log (inputs, injected faults, observed results) among non-trivial runs",
+            "distinct_measure": "distinct 64-bit fingerprints of the per-run event log (inputs, injected faults, observed results) among non-trivial runs; counted exactly over the first 150,000 non-trivial runs of each worker (a lower bound for larger batches)",
             "batch_fingerprint": format!("{digest:016x}"),
             "workers": n,
             "lost_runs_after_worker_death": crashes.len(),
